@@ -425,6 +425,27 @@ Example c14_par_quit_repaired_same_steps :
 Proof. exact par_quit_repaired_same_steps. Qed.
 Print Assumptions c14_par_quit_repaired_same_steps.
 
+(* ---- Client.SendProtobuf and the caller's reply variable ---------------------------------- *)
+
+(* Whatever the variable held and whatever calls came before (one variable reused by a
+   sequence of calls): what the caller sees after a successful call is the server's reply to
+   THIS call, decoded from scratch -- also when that reply is encoded to zero bytes (a
+   handler that returns (nil, nil)). *)
+Theorem c14_sendpb_fresh : forall ret server, snd (sendpb false ret server) = server.
+Proof. exact sendpb_fresh. Qed.
+Print Assumptions c14_sendpb_fresh.
+
+Theorem c14_sendpb_seq_fresh : forall servers ret, sendpb_seq false ret servers = servers.
+Proof. exact sendpb_seq_fresh. Qed.
+Print Assumptions c14_sendpb_seq_fresh.
+
+(* the variant that does not decode a reply of zero bytes (seeded change C14-F) *)
+Theorem c14_sendpb_skip_empty_refuted :
+  sendpb_seq true None [ROk 6 (Msg "alice" 1 true ""); zero_reply] =
+  [ROk 6 (Msg "alice" 1 true ""); ROk 6 (Msg "alice" 1 true "")].
+Proof. exact sendpb_skip_empty_refuted. Qed.
+Print Assumptions c14_sendpb_skip_empty_refuted.
+
 (* ---- the panic barrier covers every kind of registered handler ----------------------------- *)
 
 (* The model of callInterfaceFunc turns a panic into an error for ordinary and streaming
